@@ -86,7 +86,7 @@ def check(ctx):
                f"vector form uses {vn[0]} but the group form binds {[x[0] for x in gnames]}",
                clause="both applied to a vector and used group-wise")
         if vn[1] or any(x[1] for x in gnames):
-            ok = any(vn[1] == gg[1] for gg in gnames)
+            ok = bool(gnames) and all(vn[1] == gg[1] for gg in gnames)
             ctx.ob("SIB-7", fn, f"extra arguments: vector {vn[1]} / group {[x[1] for x in gnames]}", fn.node, ok,
                    "extra arguments (ddof, q, index) reach the statistic in both forms" if ok else
                    "an extra argument (ddof/q/index) reaches the statistic in one form only", clause="all drop_na, ddof, index and q arguments")
